@@ -37,7 +37,16 @@ func (x *XDateTime) Truthy() bool {
 
 // Render returns the canonical text representation
 func (x *XDateTime) Render() string {
-	return dates.FormatISO(x.Native())
+	return formatISO(x.Native())
+}
+
+// formats as ISO8601 - whose timezone offsets only have hours and minutes, so a value in a zone whose offset has a
+// seconds component (i.e. local mean time, before standard time was adopted there) is written in UTC to stay exact
+func formatISO(t time.Time) string {
+	if _, offset := t.Zone(); offset%60 != 0 {
+		t = t.UTC()
+	}
+	return dates.FormatISO(t)
 }
 
 // Format returns the pretty text representation
@@ -110,7 +119,7 @@ func (x *XDateTime) Compare(o XValue) int {
 
 // MarshalJSON is called when a struct containing this type is marshaled
 func (x *XDateTime) MarshalJSON() ([]byte, error) {
-	return jsonx.Marshal(dates.FormatISO(x.Native()))
+	return jsonx.Marshal(formatISO(x.Native()))
 }
 
 // UnmarshalJSON is called when a struct containing this type is unmarshaled
